@@ -21,16 +21,17 @@ Record pool := mkp {
   pending : nat;               (* futures not resolved yet *)
   submitted : nat; ok : nat; failB : nat; failS : nat;   (* ghost: accepted, delivered, failed BrokenProcessPool / ShutdownExecutorError *)
   refused : nat;               (* ghost: submit() calls that raised *)
-  mgr : mst
+  mgr : mst;
+  sub : option (list sop)      (* a submit() in progress (it holds the shutdown lock): what is left of its statements *)
 }.
-Definition pool0 (n : nat) : pool := mkp true false false false false n [] 0 0 0 0 0 0 MLoop.
+Definition pool0 (n : nat) : pool := mkp true false false false false n [] 0 0 0 0 0 0 MLoop None.
 
 Definition is_dead w := match w with WDead => true | _ => false end.
 Definition is_alive w := match w with WAlive => true | _ => false end.
 
-Definition set_flags p s b k := mkp (user p) s b k (gshut p) (maxw p) (procs p) (pending p) (submitted p) (ok p) (failB p) (failS p) (refused p) (mgr p).
-Definition set_procs p l := mkp (user p) (shut p) (broken p) (kill p) (gshut p) (maxw p) l (pending p) (submitted p) (ok p) (failB p) (failS p) (refused p) (mgr p).
-Definition set_mgr p m := mkp (user p) (shut p) (broken p) (kill p) (gshut p) (maxw p) (procs p) (pending p) (submitted p) (ok p) (failB p) (failS p) (refused p) m.
+Definition set_flags p s b k := mkp (user p) s b k (gshut p) (maxw p) (procs p) (pending p) (submitted p) (ok p) (failB p) (failS p) (refused p) (mgr p) (sub p).
+Definition set_procs p l := mkp (user p) (shut p) (broken p) (kill p) (gshut p) (maxw p) l (pending p) (submitted p) (ok p) (failB p) (failS p) (refused p) (mgr p) (sub p).
+Definition set_mgr p m := mkp (user p) (shut p) (broken p) (kill p) (gshut p) (maxw p) (procs p) (pending p) (submitted p) (ok p) (failB p) (failS p) (refused p) m (sub p).
 
 (* the flag setters (atomic: they run under the shutdown lock, as does submit) *)
 Definition fprim (o : fop) (arg : option bool) (p : pool) : pool :=
@@ -53,11 +54,37 @@ Fixpoint sexec (ops : list sop) (p : pool) : option pool :=
       | SRaiseIfShutdown => if shut p then None else sexec r p
       | SRaiseIfGlobalShutdown => if gshut p then None else sexec r p
       | SAddPending => sexec r (mkp (user p) (shut p) (broken p) (kill p) (gshut p) (maxw p) (procs p) (S (pending p)) (S (submitted p))
-                                    (ok p) (failB p) (failS p) (refused p) (mgr p))
+                                    (ok p) (failB p) (failS p) (refused p) (mgr p) (sub p))
       | SEnsureRunning => sexec r (if ensure_running_tops_up_then_starts_manager then top_up p else p)
       | _ => sexec r p
       end
   end.
+
+(* submit() does not run in one piece: it holds the shutdown lock (so the flags cannot move under it) but idle exits, reaps,
+   completions and the manager's other operations interleave with its statements *)
+Definition set_sub p v := mkp (user p) (shut p) (broken p) (kill p) (gshut p) (maxw p) (procs p) (pending p) (submitted p) (ok p)
+                              (failB p) (failS p) (refused p) (mgr p) v.
+Definition raises (o : sop) (p : pool) : bool :=
+  match o with SRaiseIfBroken => broken p | SRaiseIfShutdown => shut p | SRaiseIfGlobalShutdown => gshut p | _ => false end.
+Definition is_check (o : sop) : bool := match o with SRaiseIfBroken | SRaiseIfShutdown | SRaiseIfGlobalShutdown => true | _ => false end.
+(* the leading checks, in one go: None = one of them raised, Some rest = what is left to do *)
+Fixpoint checks_pass (ops : list sop) (p : pool) : option (list sop) :=
+  match ops with
+  | o :: r => if is_check o then (if raises o p then None else checks_pass r p) else Some ops
+  | [] => Some []
+  end.
+Definition refuse p := mkp (user p) (shut p) (broken p) (kill p) (gshut p) (maxw p) (procs p) (pending p) (submitted p) (ok p) (failB p)
+                           (failS p) (S (refused p)) (mgr p) None.
+(* one statement of a submit() in progress *)
+Definition sop1 (o : sop) (r : list sop) (p : pool) : pool :=
+  let nxt := match r with [] => None | _ => Some r end in
+  match o with
+  | SAddPending => mkp (user p) (shut p) (broken p) (kill p) (gshut p) (maxw p) (procs p) (S (pending p)) (S (submitted p))
+                       (ok p) (failB p) (failS p) (refused p) (mgr p) nxt
+  | SEnsureRunning => set_sub (if ensure_running_tops_up_then_starts_manager then top_up p else p) nxt
+  | _ => if raises o p then refuse p else set_sub p nxt
+  end.
+Definition lock_free (p : pool) : bool := match sub p with None => true | Some _ => false end.
 
 Fixpoint beval (e : bexp) (p : pool) : bool :=
   match e with
@@ -76,21 +103,25 @@ Definition cprim (o : rop) (p : pool) : pool :=
   | FlagBroken => fexec flag_as_broken_prog None p
   | FlagShutdown => fexec flag_as_shutting_down_prog None p
   | FailPending => mkp (user p) (shut p) (broken p) (kill p) (gshut p) (maxw p) (procs p) 0 (submitted p) (ok p)
-                       (failB p + pending p) (failS p) (refused p) (mgr p)
+                       (failB p + pending p) (failS p) (refused p) (mgr p) (sub p)
   | FailPendingShut => mkp (user p) (shut p) (broken p) (kill p) (gshut p) (maxw p) (procs p) 0 (submitted p) (ok p)
-                           (failB p) (failS p + pending p) (refused p) (mgr p)
+                           (failB p) (failS p + pending p) (refused p) (mgr p) (sub p)
   | KillWorkers => set_procs p []
   | ShutdownWorkers => set_procs p (map (fun w => if is_alive w then WExited else w) (procs p))
   | JoinAllProcesses => set_procs p []
   | _ => p
   end.
 
+Definition needs_lock (o : rop) : bool := match o with FlagBroken | FlagShutdown => true | _ => false end.
+
 Definition broken_ops : list rop := Ledger.flatten run_broken_exit.
 Definition shutting_ops : list rop := Ledger.flatten [FlagExecutorShuttingDown].
 Definition joining_ops : list rop := Ledger.flatten [JoinInternals].
 
 Inductive ev :=
-| Submit | ShutdownCall (k : bool) | Drop | InterpreterExit
+| Submit                     (* submit() begins: takes the shutdown lock, runs its leading checks *)
+| SubmitStep                 (* ... its next statement *)
+| ShutdownCall (k : bool) | Drop | InterpreterExit
 | Crash (i : nat) | IdleExit (i : nat) | Complete (i : nat)
 | Reap (i : nat)            (* manager: a clean exit is popped and joined; tops the pool up if work is waiting *)
 | Detect                    (* manager: a sentinel fired without announcement -> terminate_broken *)
@@ -109,26 +140,35 @@ Definition in_loop (p : pool) : bool := match mgr p with MLoop => true | _ => fa
 Definition step (p : pool) (e : ev) : pool :=
   match e with
   | Submit =>
-      if user p then
-        match sexec submit_prog p with
-        | Some p' => p'
-        | None => mkp (user p) (shut p) (broken p) (kill p) (gshut p) (maxw p) (procs p) (pending p) (submitted p) (ok p) (failB p)
-                      (failS p) (S (refused p)) (mgr p)
+      if user p && lock_free p then
+        match checks_pass submit_prog p with
+        | Some rest => set_sub p (match rest with [] => None | _ => Some rest end)
+        | None => refuse p
         end
       else p
+  | SubmitStep =>
+      match sub p with
+      | Some (o :: r) => sop1 o r p
+      | Some [] => set_sub p None
+      | None => p
+      end
   | ShutdownCall k =>
-      if user p && shutdown_flags_first_with_kill_argument then fexec flag_as_shutting_down_prog (Some k) p else p
-  | Drop => mkp false (shut p) (broken p) (kill p) (gshut p) (maxw p) (procs p) (pending p) (submitted p) (ok p) (failB p) (failS p)
-                (refused p) (mgr p)
-  | InterpreterExit => mkp (user p) (shut p) (broken p) (kill p) true (maxw p) (procs p) (pending p) (submitted p) (ok p) (failB p)
-                           (failS p) (refused p) (mgr p)
+      if user p && lock_free p && shutdown_flags_first_with_kill_argument then fexec flag_as_shutting_down_prog (Some k) p else p
+  | Drop => if lock_free p     (* the object is in use while one of its methods runs *)
+            then mkp false (shut p) (broken p) (kill p) (gshut p) (maxw p) (procs p) (pending p) (submitted p) (ok p) (failB p) (failS p)
+                     (refused p) (mgr p) (sub p)
+            else p
+  | InterpreterExit => if lock_free p      (* assumed: no thread is inside submit() when the interpreter starts shutting down *)
+                       then mkp (user p) (shut p) (broken p) (kill p) true (maxw p) (procs p) (pending p) (submitted p) (ok p) (failB p)
+                                (failS p) (refused p) (mgr p) (sub p)
+                       else p
   | Crash i => match nth_error (procs p) i with Some WAlive => set_procs p (set_nth (procs p) i WDead) | _ => p end
   | IdleExit i => match nth_error (procs p) i with Some WAlive => set_procs p (set_nth (procs p) i WExited) | _ => p end
   | Complete i =>
       match nth_error (procs p) i, pending p with
       | Some WAlive, S n => if in_loop p
                             then mkp (user p) (shut p) (broken p) (kill p) (gshut p) (maxw p) (procs p) n (submitted p) (S (ok p))
-                                     (failB p) (failS p) (refused p) (mgr p)
+                                     (failB p) (failS p) (refused p) (mgr p) (sub p)
                             else p
       | _, _ => p end
   | Reap i =>
@@ -144,7 +184,8 @@ Definition step (p : pool) (e : ev) : pool :=
   | MgrOp =>
       match mgr p with
       | MOps t (IfKillWorkers ops :: r) => set_mgr p (MOps t (if kill p then ops ++ r else r))
-      | MOps t (o :: r) => set_mgr (cprim o p) (MOps t r)
+      | MOps t (o :: r) => if needs_lock o && negb (lock_free p) then p      (* the flag setters wait for the shutdown lock *)
+                           else set_mgr (cprim o p) (MOps t r)
       | MOps TShutting [] => if Nat.eqb (pending p) 0 then set_mgr p (MOps TJoining joining_ops) else set_mgr p MLoop
       | MOps _ [] => set_mgr p MDone
       | _ => p
@@ -157,3 +198,5 @@ Definition no_resize (es : list ev) : bool := forallb (fun e => match e with Res
 
 (* nobody can get a new future accepted any more *)
 Definition closed (p : pool) : bool := negb (user p) || shut p || gshut p.
+Definition is_ensure (o : sop) : bool := match o with SEnsureRunning => true | _ => false end.
+Definition ensure_due (p : pool) : bool := match sub p with Some r => existsb is_ensure r | None => false end.
